@@ -108,6 +108,7 @@ pub fn run_extra(kind: &str, l: &[Sx]) -> String {
         "serscript" => serscript_case(l),
         "respell" => respell_case(l),
         "fnhist" => fnhist_case(l),
+        "datefmt" => crate::oracles::datefmt_case(l),
         "rtext" => rtext_case(l),
         "re" => crate::oracles::re_case(l),
         "relit" => crate::oracles::relit_case(l),
